@@ -40,6 +40,7 @@ static void try_cookie(World &w,const std::string &cookie,const std::string &how
 	try{ ok=w.cookies->load(si,data,exp); }catch(std::exception const &e){ bad("load:throws:"+w.cfg->label,"session_cookies::load throws: "+std::string(e.what()),how); return; }
 	std::string cipher; bool dec= cookie.size()>=1&&cookie[0]=='C'&&b64url::decode(cookie.substr(1),cipher);
 	{ static uint64_t sc=0; if(vf::sample_tick(sc,100003)) vf::sample("{\"case\":"+vf::jstr(how)+",\"cookie_prefix\":"+vf::jstr(cookie.substr(0,24))+",\"accepted\":"+(ok?"true":"false")+"}"); }
+	if(cookie.size()>=1&&(cookie.size()-1)%4==1) dec=false; /* independent of the library's decoder: no base64 text has a length of 1 (mod 4) */
 	if(ok){ n_accept++; std::map<std::string,Issued>::iterator it= dec? w.issued.find(cipher):w.issued.end(); if(it==w.issued.end()) bad("load:forged-accepted:"+w.cfg->label,"a cookie that does not decode to a cipher text this server issued is accepted",how+" cookie="+cookie.substr(0,60));
 		else { if(it->second.data!=data||it->second.expiry!=exp) bad("load:wrong-content:"+w.cfg->label,"load returns data/expiry different from the save that produced this cipher text",how); if(exp<g_now) bad("load:expired-accepted:"+w.cfg->label,"an expired cookie is accepted",how); }
 		if(jar.cleared) bad("load:cleared-valid:"+w.cfg->label,"a valid cookie was cleared",how); }
@@ -77,10 +78,15 @@ static void run_config(const Cfg &cfg,const std::vector<Cfg> &all,session_pool &
 		size_t nb=cipher.size()/16; for(size_t a=0;a<nb;a++) for(size_t b=0;b<nb;b++){ if(a==b) continue; std::string m=cipher; std::string A=m.substr(a*16,16),B=m.substr(b*16,16); m.replace(a*16,16,B); if(m!=cipher) try_cookie(w,"C"+b64url::encode(m),tag+" block"+std::to_string(a)+"<-"+std::to_string(b)); m.replace(b*16,16,A); if(m!=cipher) try_cookie(w,"C"+b64url::encode(m),tag+" swap"+std::to_string(a)+","+std::to_string(b)); std::string dup=cipher; dup.insert(a*16,B); try_cookie(w,"C"+b64url::encode(dup),tag+" dup"); vf::guard("block_ops"); }
 		// text-level substitutions
 		{ static const char alpha[]="ABCDEFGHIJKLMNOPQRSTUVWXYZabcdefghijklmnopqrstuvwxyz0123456789-_=+/ "; size_t step= th?1:(c.size()>60?5:2); for(size_t pos=0;pos<c.size();pos+=step) for(size_t a=0;a<sizeof(alpha);a++){ if(c[pos]==alpha[a]) continue; std::string m=c; m[pos]=alpha[a]; try_cookie(w,m,tag+" char@"+std::to_string(pos)); vf::guard("char_substitutions"); } }
+		// text-level length changes: every single-character deletion, insertion of {A,_,-,=} at every (quick: every 3rd) position, appending 1..6 characters: the
+		// cookie text then has a length no encoder produces (1 mod 4) or decodes to a longer/shorter cipher text
+		{ for(size_t pos=1;pos<c.size();pos++){ std::string m=c; m.erase(pos,1); try_cookie(w,m,tag+" delete-char@"+std::to_string(pos)); vf::guard("char_deletions"); }
+		  const char ins[]={'A','_','-','='}; for(size_t pos=1;pos<=c.size();pos+=(th?1:3)) for(int a=0;a<4;a++){ std::string m=c; m.insert(pos,1,ins[a]); try_cookie(w,m,tag+" insert-char@"+std::to_string(pos)); vf::guard("char_insertions"); }
+		  for(int n=1;n<=6;n++) for(int a=0;a<4;a++){ try_cookie(w,c+std::string(n,ins[a]),tag+" append "+std::to_string(n)+" x '"+std::string(1,ins[a])+"'"); vf::guard("text_extensions"); } }
 		// splices with every other valid cookie, byte granular
 		for(size_t vj=0;vj<valid.size();vj+=(th?2:5)){ if(vj==vi) continue; std::string c2; b64url::decode(valid[vj].substr(1),c2); size_t step= th?1:4; for(size_t p=1;p<cipher.size()&&p<c2.size();p+=step){ std::string m=cipher.substr(0,p)+c2.substr(p); if(m!=cipher&&m!=c2) try_cookie(w,"C"+b64url::encode(m),tag+" splice@"+std::to_string(p)+" with#"+std::to_string(vj)); std::string m2=cipher.substr(0,p)+c2.substr(c2.size()-std::min(c2.size(),cipher.size()-p)); if(m2!=cipher&&m2!=c2) try_cookie(w,"C"+b64url::encode(m2),tag+" tail-splice@"+std::to_string(p)); vf::guard("splices"); } } }
 	// specials
-	{ const char *sp[]={"","C","CA","CAA","I0123456789abcdef0123456789abcdef","Ixyz","D","c","C=","C ","C%00","CAAAAAAAAAAAAAAAAAAAAAAAAAAAAAAAAAAAAAAAAAAAAAAAAAAAAAAAAAAAAAAAAAAAAAAAAAA"}; for(size_t i=0;i<sizeof(sp)/sizeof(*sp);i++) try_cookie(w,sp[i],cfg.label+" special#"+std::to_string(i)); std::string zeros(200,'\0'); for(size_t n=0;n<200;n+=7) try_cookie(w,"C"+b64url::encode(zeros.substr(0,n)),cfg.label+" zeros"); }
+	{ const char *sp[]={"","C","CA","CAA","I0123456789abcdef0123456789abcdef","Ixyz","D","c","C=","C ","C%00","CAAAAAAAAAAAAAAAAAAAAAAAAAAAAAAAAAAAAAAAAAAAAAAAAAAAAAAAAAAAAAAAAAAAAAAAAAA"}; for(size_t i=0;i<sizeof(sp)/sizeof(*sp);i++) try_cookie(w,sp[i],cfg.label+" special#"+std::to_string(i)); for(size_t n=1;n<=40;n++){ try_cookie(w,"C"+std::string(n,'A'),cfg.label+" C+"+std::to_string(n)+"xA"); try_cookie(w,"C"+std::string(n,'_'),cfg.label+" C+"+std::to_string(n)+"x_"); vf::guard("text_length_classes"); } std::string zeros(200,'\0'); for(size_t n=0;n<200;n+=7) try_cookie(w,"C"+b64url::encode(zeros.substr(0,n)),cfg.label+" zeros"); }
 	// transplant: cookies issued under other key material / algorithms
 	for(size_t k=0;k<all.size();k++){ if(all[k].label==cfg.label) continue; std::unique_ptr<sessions::encryptor_factory> f2=all[k].make(all[k]); sessions::session_cookies other(f2->get()); for(int v=0;v<2;v++){ Jar jar; session_interface si(pool,jar); other.save(si,payload(17,v),g_now+100,false,false); try_cookie(w,si.temp_cookie_,cfg.label+" transplant-from "+all[k].label); vf::guard("transplants"); } }
 	{ Cfg same=cfg; same.salt+=100; std::unique_ptr<sessions::encryptor_factory> f2=same.make(same); sessions::session_cookies other(f2->get()); Jar jar; session_interface si(pool,jar); other.save(si,payload(17,0),g_now+100,false,false); try_cookie(w,si.temp_cookie_,cfg.label+" transplant-from same algorithm, other key"); }
@@ -112,10 +118,10 @@ static void config_refusals(){ // keys shorter than 16 bytes and encryption with
 	{ json::value s; s["session"]["location"]="client"; s["session"]["client"]["encryptor"]="hmac"; s["session"]["client"]["key"]=hexkey(8,0); bool t=false; try{ session_pool p(s); p.init(); Jar j; session_interface si(p,j); si.load(); si.set("a","b"); si.save(); }catch(std::exception const &){ t=true; } if(!t) bad("config:short-key-accepted-pool","an 8-byte key is accepted through the session_pool configuration","hmac key8"); else vf::guard("config_refusals"); } }
 
 int main(int argc,char **argv){ vf::init(argc,argv,"C05","fault_enumeration"); bool th=true; bool big=vf::thorough(); std::vector<Cfg> cfgs=configs(th); (void)big;
-	vf::C().rule="per key configuration: 13 key configurations (hmac-md5/sha1/sha224/sha256/sha384/sha512 with key lengths 16..129, aes128/192/256 with derived, combined and split keys); 3 cookies for each of 12 payload lengths 0..255 (thorough: + 1000, 4096) + an expiry grid {now-1, now, now+1} under a virtual clock; for the cookies: every single-bit flip of the decoded cipher text, every truncation, head cuts, extensions/prefixes by 1..17 bytes of 00/ff, every 16-byte block copy/swap/duplication, every single-character substitution of the cookie text by 69 characters, byte-granular splices with other valid cookies, transplants from every other configuration and from the same algorithm under another key, specials; the same at encryptor::decrypt level; for the AES configurations every sequence of <= 5 (6) operations {encrypt(p1), encrypt(p2), decrypt(valid x0), decrypt(valid x1), decrypt(damaged)} on one encryptor: first cipher blocks pairwise distinct over all encrypt calls of all sequences, round trip, decrypt verdicts independent of history. distinct = key configurations (each a different code path: digest, key derivation, split keys); all non-trivial";
+	vf::C().rule="per key configuration: 13 key configurations (hmac-md5/sha1/sha224/sha256/sha384/sha512 with key lengths 16..129, aes128/192/256 with derived, combined and split keys); 3 cookies for each of 12 payload lengths 0..255 (thorough: + 1000, 4096) + an expiry grid {now-1, now, now+1} under a virtual clock; for the cookies: every single-bit flip of the decoded cipher text, every truncation, head cuts, extensions/prefixes by 1..17 bytes of 00/ff, every 16-byte block copy/swap/duplication, every single-character substitution of the cookie text by 69 characters, every single-character deletion, insertion of 4 characters at every (3rd) position, appending 1..6 characters, 'C'+n characters for n = 1..40, byte-granular splices with other valid cookies, transplants from every other configuration and from the same algorithm under another key, specials; the same at encryptor::decrypt level; for the AES configurations every sequence of <= 5 (6) operations {encrypt(p1), encrypt(p2), decrypt(valid x0), decrypt(valid x1), decrypt(damaged)} on one encryptor: first cipher blocks pairwise distinct over all encrypt calls of all sequences, round trip, decrypt verdicts independent of history. distinct = key configurations (each a different code path: digest, key derivation, split keys); all non-trivial";
 	vf::assume("'decodes to' is defined by b64url::decode (whose exactness is C15's subject): text differing only in unused trailing bits or in characters the decoder maps to the same sextet is the same cipher text"); vf::assume("secrecy is a cryptographic claim enumeration cannot decide: only necessary conditions are checked (a fresh first cipher block for every encrypt call over all operation sequences on an encryptor, equal lengths for equal payload lengths, no 4-byte plaintext window in the cipher text)"); vf::assume("at expiry == now either verdict is accepted");
 	if(!vf::C().replay_file.empty()) printf("replay: C05 cases are deterministic functions of the configuration (entropy only affects AES IVs); re-running the quick tier reproduces them\n");
 	vf::parallel(cfgs.size()+1,16,[&](int i){ if(i==(int)cfgs.size()){ config_refusals(); return; } json::value s; s["session"]["location"]="client"; s["session"]["client"]["encryptor"]="hmac"; s["session"]["client"]["key"]=hexkey(20,9); session_pool pool(s); pool.init(); run_config(cfgs[i],cfgs,pool,th); if(cfgs[i].aes) encryptor_sequences(cfgs[i],vf::thorough()?6:5); },th?1500:250);
-	vf::require_guard("roundtrips"); vf::require_guard("bitflips"); vf::require_guard("splices"); vf::require_guard("block_ops"); vf::require_guard("char_substitutions"); vf::require_guard("transplants"); vf::require_guard("secrecy_checks"); vf::require_guard("encryptor_sequences"); vf::require_guard("encryptor_sequence_encrypts"); vf::require_guard("config_refusals"); vf::require_guard("accepted"); vf::require_guard("rejected");
+	vf::require_guard("roundtrips"); vf::require_guard("bitflips"); vf::require_guard("splices"); vf::require_guard("block_ops"); vf::require_guard("char_substitutions"); vf::require_guard("char_deletions"); vf::require_guard("char_insertions"); vf::require_guard("text_extensions"); vf::require_guard("text_length_classes"); vf::require_guard("transplants"); vf::require_guard("secrecy_checks"); vf::require_guard("encryptor_sequences"); vf::require_guard("encryptor_sequence_encrypts"); vf::require_guard("config_refusals"); vf::require_guard("accepted"); vf::require_guard("rejected");
 	// distinct_nontrivial needs >=2: each configuration is one
 	return vf::finish(); }
